@@ -14,6 +14,8 @@
      EPeerData    processData (takeInflows, padding refund, discard refund, WINDOW_UPDATEs)
      EAppRead     transportResponseBody.Read (inflow.add on connection and stream, WINDOW_UPDATEs)
      EAppClose    transportResponseBody.Close (unread bytes returned to the connection window)
+     EPeerHeaders processHeaders: response HEADERS (or trailers); END_STREAM ends the peer's half
+                  (a response without body, e.g. a final response in the middle of an upload)
 
    Window arithmetic is done by the gosync-generated functions of Gen/H2Flow.v (flow.go), so int32
    overflow behaves as in the Go code.  An event whose guard is false is a no-op (it cannot
@@ -90,7 +92,8 @@ Inductive cev :=
 | EGoAway (last : Z)
 | EPeerData (sid len pad : Z) (es : bool)
 | EAppRead (sid n : Z) (eof : bool)
-| EAppClose (sid : Z).
+| EAppClose (sid : Z)
+| EPeerHeaders (sid : Z) (es : bool).
 
 Fixpoint find_cs (sid : Z) (l : list cstream) : option cstream :=
   match l with
@@ -325,6 +328,15 @@ Definition conn_step (c : conn) (e : cev) : conn * list ev :=
             let '(rc, f2) := if 0 <? cs_buf s then in_add_ret (cc_in c) (cs_buf s) else (0, cc_in c) in
             (set_cstreams (set_cin c f2) (upd_cs sid cs_set_app_closed (cc_streams c)), wu 0 rc)
           else (c, [])
+      | None => (c, [])
+      end
+  | EPeerHeaders sid es =>
+      match find_cs sid (cc_streams c) with
+      | Some s =>
+          (* streamByID = nil: ignored; after END_STREAM: protocol error, outside the guards *)
+          if cs_forgotten s || cs_peer_reset s || cs_peer_ended s then (c, [])
+          else (set_cstreams c (upd_cs sid (fun s0 => if es then cs_set_peer_ended s0 else s0) (cc_streams c)),
+                [P (FHeaders sid 0 true es)])
       | None => (c, [])
       end
   end.
